@@ -56,8 +56,8 @@ namespace bxdecay0 {
     double p;
     double tclev;
     double thlev;
-    particle * ipg540 = nullptr;
-    particle * ipg591 = nullptr;
+    int ipg540 = -1;
+    int ipg591 = -1;
 
     // Subroutine describes the deexcitation process in Ru100 nucleus
     // after 2b-decay of Mo100 to ground and excited 0+ and 2+ levels
@@ -151,7 +151,7 @@ namespace bxdecay0 {
     p      = prng_() * (cg + cK);
     if (p <= cg) {
       decay0_gamma(prng_, event_, Egamma, tclev, thlev, tdlev);
-      ipg591 = &event_.grab_last_particle();
+      ipg591 = event_.get_particles().size() - 1;
     } else {
       decay0_electron(prng_, event_, Egamma - EbindK, tclev, thlev, tdlev);
       decay0_gamma(prng_, event_, EbindK, 0., 0., tdlev);
@@ -167,15 +167,15 @@ namespace bxdecay0 {
     p      = prng_() * (cg + cK);
     if (p <= cg) {
       decay0_gamma(prng_, event_, Egamma, tclev, thlev, tdlev);
-      ipg540 = &event_.grab_last_particle();
+      ipg540 = event_.get_particles().size() - 1;
     } else {
       decay0_electron(prng_, event_, Egamma - EbindK, tclev, thlev, tdlev);
       decay0_gamma(prng_, event_, EbindK, 0., 0., tdlev);
     }
     // Angular correlation between gammas 591 and 540 keV
-    if (ipg591 != nullptr && ipg540 != nullptr) {
-      double p591 = ipg591->get_p();
-      double p540 = ipg540->get_p();
+    if (ipg591 >= 0 && ipg540 >= 0) {
+      double p591 = event_.grab_particles()[ipg591].get_p();
+      double p540 = event_.grab_particles()[ipg540].get_p();
       // std::sqrt (pmoment (1, npg591) ** 2 + pmoment (2, npg591) ** 2 +;
       //            pmoment (3, npg591) ** 2);
       // npg591 p540 =
@@ -205,8 +205,8 @@ namespace bxdecay0 {
       if (prng_() * (1. + std::abs(a2) + std::abs(a4)) > 1. + a2 * gsl_pow_2(ctet) + a4 * gsl_pow_4(ctet)) {
         goto label_1;
       }
-      ipg591->set_momentum(p591 * stet1 * cos(phi1), p591 * stet1 * sin(phi1), p591 * ctet1);
-      ipg540->set_momentum(p540 * stet2 * cos(phi2), p540 * stet2 * sin(phi2), p540 * ctet2);
+      event_.grab_particles()[ipg591].set_momentum(p591 * stet1 * cos(phi1), p591 * stet1 * sin(phi1), p591 * ctet1);
+      event_.grab_particles()[ipg540].set_momentum(p540 * stet2 * cos(phi2), p540 * stet2 * sin(phi2), p540 * ctet2);
     }
     return;
   label_10000:
